@@ -490,6 +490,8 @@ def main():
             confirmed = bool(c and c.get('confirmed_on_real_code'))
             print('VIOLATION property=%s replay=%s%s' % (pid, path, '' if confirmed else ' no-failing-input-found'))
             print('  obligation %s/%s/%s failed: %s' % (unit, f['fn'], f['kind'], f['msg']))
+        if undecided:
+            print('  note: the contracts were UNDECIDED on this tree (%s); the deciding step above is the replay of concrete inputs against the real crate' % undecided[0][:200])
         sys.exit(1)
     if undecided:
         # the contracts could not be decided on this tree (e.g. the extraction met code outside its model).  The directed
